@@ -24,7 +24,7 @@ class _:
               "correlation_id": "int", "close_dlist": "Optional[Ref_Deferred]",
               "clients": "Optional[Dict[int, Ref_BrokerClientAPI]]", "_brokers": "Dict[int, BrokerMetadata]",
               "_endpoint_factory": ("Ref_EndpointFactory", False), "clientId": ("Any", False), "_retry_policy": ("Any", False),
-              "_bootstrap_hosts": ("List[Tuple[str, int]]", False), "_clientIdBytes": ("bytes", False),
+              "_bootstrap_hosts": "List[Tuple[str, int]]", "_clientIdBytes": ("bytes", False),
               # cached topic view (C08 / C18): partition ids per topic, leader per partition, per-topic error
               "topic_partitions": "Dict[str, List[int]]", "topic_errors": "Dict[str, int]",
               "partition_meta": "Dict[TopicAndPartition, PartitionMetadata]",
